@@ -4,3 +4,15 @@ from ddsim.storesim.values import Obj
 
 def make_obj(i):
     return Obj(i)
+
+
+def make_val(kind, n):
+    if kind == "str":
+        return f"s{n}-é" + "x" * (n % 7)
+    if kind == "bytes":
+        return bytes([n % 256, 0, 255, n % 7])
+    if kind == "none":
+        return None
+    if kind == "empty":
+        return ""
+    return Obj(n, "payload")
